@@ -68,7 +68,9 @@ def _bounded(pid, script='df_enum.py', what='real accumulator vs pandas on the c
 
 for _pid in ('C06', 'C07', 'C11', 'C12', 'C16'):
     EXTRA_CHECKS[_pid] = [_bounded(_pid)]
-EXTRA_CHECKS['C06'].append(_bounded('C06', 'pure_enum.py', 'the real helper disagrees with its list-level meaning on this concrete input'))
+for _pid in ('C06', 'C07', 'C11', 'C12'):
+    # zip(...).map(...) is how operations between streaming dataframes and literals are wired: pack_literals
+    EXTRA_CHECKS[_pid].append(_bounded(_pid, 'pure_enum.py', 'the real helper disagrees with its list-level meaning on this concrete input'))
 for _pid in ('C13', 'C08', 'C17', 'C10', 'C04'):
     EXTRA_CHECKS[_pid] = [_bounded(_pid, 'pure_enum.py', 'the real helper disagrees with its meaning on this concrete input')]
 EXTRA_CHECKS['C01'] = [_bounded('C01', 'pure_enum.py', 'the real helper disagrees with its list-level meaning on this concrete input')]
